@@ -83,12 +83,17 @@ def replay_history(args):
                 p["exc"] = type(e).__name__
             pr.append(p)
         ev.append({"ev": "probe", "id": f"{hid}.{step}", "probes": pr})
-        for oi, ob in enumerate(OTHERS):
+        for oi, ob in enumerate(OTHERS + ["self"]):
+            # "self": the tree queried against itself (the case model-checked as TreeQueryExact); for the judge this is
+            # another tree holding the inserted boxes in insertion order
+            me = ob == "self"
+            if me:
+                ob = [list(map(list, b)) for b in inserted]
             e = {"ev": "tree", "id": f"{hid}.{step}.t{oi}", "other": ob, "pairs": [], "u1": [], "u2": [],
                  "flag": False, "exc": "none"}
             try:
-                other = AabbTree()
-                if ob:
+                other = tree if me else AabbTree()
+                if ob and not me:
                     other.insert_aabbs(np.array([lift_box(b, f) for b in ob]))
                 flag, u1, u2, pairs = tree.overlaps_aabb_tree(other)
                 e["flag"] = bool(flag)
